@@ -34,7 +34,7 @@ def norm_gamma(g: dict) -> dict:
     d = {"strategy": "plain", "L": 1, "nrow": 6, "header": "explicit", "footnote": None, "source": None,
          "new_page": False, "pageby_row": "column", "pageby_header": True, "place": ["all", "last", "last"],
          "font": 1, "size": 9, "inner_repeat": True, "heights": [1, 2, 3], "group_cols_reversed": False, "recur": False,
-         "numeric_groups": False, "dup_narrow": False, "padded": False, "nulls": False, "other_col_size": None, "group_by_lines": None, "nan_groups": False, "indent_wrap": None, "key_not_first": False}
+         "numeric_groups": False, "dup_narrow": False, "padded": False, "nulls": False, "other_col_size": None, "group_by_lines": None, "nan_groups": False, "indent_wrap": None, "key_not_first": False, "wide_fill": False}
     d.update(g)
     if d["strategy"] == "plain":
         d["L"] = 0
@@ -147,6 +147,8 @@ def spec_of(gamma: dict, hist) -> dict:
     pb, sl, _ = keys_of(g, hist)
     if g.get("indent_wrap"):
         spec["indent_wrap"] = g["indent_wrap"]
+    if g.get("wide_fill"):
+        spec["wide_fill"] = True
     if g.get("other_col_size"):
         # per-column font sizes: the tall column keeps the layout's size, the other data column gets another one; the vector
         # is given per DataFrame column (group columns first), as the library documents it
